@@ -421,6 +421,12 @@ def addConn (cs : List TConn) (c : TConn) : List TConn :=
   if cs.any (fun x => x.names = c.names) then cs.map (fun x => if x.names = c.names then c else x)
   else cs ++ [c]
 
+/-- a block's `connection_name` record as `add_connection` fills it (`block.connection_name.add(
+    conname)` for both blocks of every connection added): the keys of the connections that mention
+    the block (a set; listed in connection order) -/
+def connRecord (cs : List TConn) (b : Str) : List (Str × Str) :=
+  (cs.filter (fun c => c.b0 = b || c.b1 = b)).map TConn.names
+
 /-- `self.block[name]` -/
 def findBlock (bs : List Block) (name : Str) : Except Exc Block :=
   match bs.find? (fun b => b.name = name) with
@@ -630,6 +636,13 @@ def LayersWF (g : Geo) : Prop :=
   (g.layerlist.map (·.name)).Nodup
 
 instance (g : Geo) : Decidable (LayersWF g) := by unfold LayersWF; infer_instance
+
+/-- the geometry's connection registry has one entry per ordered column pair (the `connection`
+    dict is keyed by the pair of column names), and a connection joins two different columns -/
+def ConnsWF (g : Geo) : Prop :=
+  (g.conns.map (fun k => (k.col0, k.col1))).Nodup ∧ ∀ k ∈ g.conns, k.col0 ≠ k.col1
+
+instance (g : Geo) : Decidable (ConnsWF g) := by unfold ConnsWF; infer_instance
 
 /-- bottom of the lowest layer -/
 def lastBottom : Rat → List Layer → Rat
